@@ -126,6 +126,9 @@ def collisions(draw):
     }
 
 
+NOTHING = '<no value>'      # an expected output that must be None
+
+
 def collision_script(case):
     """(text, expected printed values)"""
     name, role = case['name'], case['role']
@@ -151,7 +154,7 @@ def collision_script(case):
             'println {0} end define q_f with {0} begin q_g println {0} ' \
             'return {0} end'.format(name)
         # (with a global variable of that name, q_g reads the global)
-        inside = [outer if case['outer'] == 'variable-before' else None,
+        inside = [outer if case['outer'] == 'variable-before' else NOTHING,
                   arg, arg]
     elif role == 'local':
         routine = 'define q_f with q_p begin assign {0} {{q_p + {1}}} ' \
@@ -219,7 +222,7 @@ def check_collision(acc, case):
     outs = [e[1] for e in result.trace if e[0] == 'out']
     # None in the expectation = not asserted (a loop variable after its loop)
     ok = len(outs) == len(expected) and all(
-        want is None or got == want or (
+        want is None or (want == NOTHING and got is None) or got == want or (
             not isinstance(want, str) and not isinstance(got, str)
             and got is not None and abs(got - want) < 1e-9)
         for got, want in zip(outs, expected))
